@@ -138,18 +138,21 @@ func (w *waitCloser) Error() (err error) {
 }
 
 func (w *waitCloser) Close(err error) bool {
-	if w.closed.CompareAndSwap(false, true) {
-		w.Lock()
-		w.err = err
+	// the error is stored before the closer shows as closed: whoever sees IsClosed() and then asks
+	// Error() must not be told "no error" by a closer that is just being closed with one
+	w.Lock()
+	if w.closed.Load() {
 		w.Unlock()
-		if w.stopFun != nil {
-			w.stopFun(err)
-		}
-		w.cancel()
-		return true
+		return false
 	}
-
-	return false
+	w.err = err
+	w.closed.Store(true)
+	w.Unlock()
+	if w.stopFun != nil {
+		w.stopFun(err)
+	}
+	w.cancel()
+	return true
 }
 
 func (w *waitCloser) Context() context.Context {
